@@ -780,7 +780,10 @@ class Router:
         # forwarding-algorithm packet assembly, so both AREA_FORWARDING and
         # NON_AREA_FORWARDING branches share the same signed bytes.
         sec_payload: bytes | None = None
-        if request.security_profile == SecurityProfile.DECENTRALIZED_ENVIRONMENTAL_NOTIFICATION_MESSAGE:
+        if request.security_profile == SecurityProfile.DECENTRALIZED_ENVIRONMENTAL_NOTIFICATION_MESSAGE and (
+            self.sign_service is not None or self.mib.itsGnSecurity == GnSecurity.ENABLED
+        ):
+            # A station running without security sends the DENM unsecured, like every other packet
             if self.sign_service is None:
                 raise NotImplementedError(
                     "DENM security profile requires a SignService"
